@@ -17,9 +17,9 @@ CONFIGS_THOROUGH = [(k, h, "GridsDense" if k in ("DDF", "SVF") else "GridsSpline
 INVARIANTS = "INVARIANT TypeOK\nINVARIANT CallFresh\nINVARIANT DispFreshAfterReplace\nINVARIANT InverseStaysInverse\nPROPERTY CopiesIndependent\n"
 
 
-def cfg(kind: str, holder: str, gridsdef: str, maxobj: int, maxlen: int, emit: bool, inv: bool) -> str:
+def cfg(kind: str, holder: str, gridsdef: str, maxobj: int, maxlen: int, emit: bool, inv: bool, initver: int = 0) -> str:
     s = (f"SPECIFICATION Spec\nCONSTANTS\n  MaxObj = {maxobj}\n  MaxLen = {maxlen}\n  Kind = \"{kind}\"\n"
-         f"  Holder0 = \"{holder}\"\n  Grids <- {gridsdef}\n  EmitCases = {'TRUE' if emit else 'FALSE'}\n")
+         f"  Holder0 = \"{holder}\"\n  Grids <- {gridsdef}\n  InitVer = {initver}\n  EmitCases = {'TRUE' if emit else 'FALSE'}\n")
     if inv:
         s += INVARIANTS
     s += "CONSTRAINT Emit\n"
@@ -36,7 +36,7 @@ def step_sig(kind: str, holder: str, hist: List[dict], k: int) -> Dict[str, Any]
 def replay_history(ctx: Ctx, case: Dict[str, Any], props: Tuple[str, ...] = ("C09",)) -> None:
     kind, holder, hist = case["kind"], case["holder"], case["hist"]
     try:
-        w = World(kind, holder)
+        w = World(kind, holder, case.get("initver", 0))
     except Exception as ex:
         raise MachineryError(f"cannot construct {kind}/{holder}: {ex}")
     # conditioning arguments are given positionally or by keyword
@@ -63,19 +63,19 @@ def replay_history(ctx: Ctx, case: Dict[str, Any], props: Tuple[str, ...] = ("C0
                 return
 
 
-def enumerate_histories(ctx: Ctx, configs, maxobj: int, maxlen: int, label: str) -> List[dict]:
+def enumerate_histories(ctx: Ctx, configs, maxobj: int, maxlen: int, label: str, initver: int = 0) -> List[dict]:
     out = []
     for kind, holder, gd in configs:
-        ctx.tlc("MC_TransformState", cfg(kind, holder, gd, maxobj, maxlen, False, True), label=f"{label}-laws-{kind}-{holder}", timeout=3000)
-        res = ctx.tlc("MC_TransformState", cfg(kind, holder, gd, maxobj, maxlen, True, False), label=f"{label}-emit-{kind}-{holder}", timeout=3000)
+        ctx.tlc("MC_TransformState", cfg(kind, holder, gd, maxobj, maxlen, False, True, initver), label=f"{label}-laws-{kind}-{holder}", timeout=3000)
+        res = ctx.tlc("MC_TransformState", cfg(kind, holder, gd, maxobj, maxlen, True, False, initver), label=f"{label}-emit-{kind}-{holder}", timeout=3000)
         out += json_lines(res, key=None)
     return out
 
 
-def simulate_histories(ctx: Ctx, configs, maxobj: int, depth: int, num: int) -> List[dict]:
+def simulate_histories(ctx: Ctx, configs, maxobj: int, depth: int, num: int, initver: int = 0) -> List[dict]:
     out = []
     for kind, holder, gd in configs:
-        res = ctx.tlc("MC_TransformState", cfg(kind, holder, gd, maxobj, depth, True, False), label=f"sim-{kind}-{holder}",
+        res = ctx.tlc("MC_TransformState", cfg(kind, holder, gd, maxobj, depth, True, False, initver), label=f"sim-{kind}-{holder}",
                       simulate=f"num={num}", depth=depth + 2, workers=4, timeout=3000)
         hs = json_lines(res, key=None)
         # keep maximal histories only (every prefix ending in an observation is emitted too)
